@@ -508,6 +508,7 @@ namespace R
          auto starB = [ = ]( int q ) { return star( B, q ); };
          auto starC = [ = ]( int q ) { return star( C, q ); };
          auto ch = [ = ]( int q ) { return data[ q ]; };
+         auto uc = [ = ]( int q ) { return unsigned( (unsigned char)data[ q ] ); };
          switch( op ) {
             case HOLE: {
                const int an = hole_answer( self, pos, end );
@@ -556,6 +557,45 @@ namespace R
             case UTF8_ANY: {
                const int n = utf8_len( data + pos, end - pos );
                return n > 0 ? ok( pos + n ) : fail();
+            }
+            // ---- one rule per bump-selection path (doc/Rule-Reference.md: one, not_one, range, not_range, ranges, string, istring;
+            //      the utf8:: and uint8:: forms; mask_* compare ( byte & M ))
+            case ONE_A_LF_CR:
+            case ONE_LF_CR_A:
+            case U8_ONE_A_LF_CR: return ( pos < end && ( ch( pos ) == 'a' || ch( pos ) == '\n' || ch( pos ) == '\r' ) ) ? ok( pos + 1 ) : fail();
+            case RANGE_TAB_CR:
+            case U8_RANGE_TAB_CR: return ( pos < end && uc( pos ) >= 9 && uc( pos ) <= 13 ) ? ok( pos + 1 ) : fail();
+            case NOT_RANGE_AB: return ( pos < end && !( ch( pos ) == 'a' || ch( pos ) == 'b' ) ) ? ok( pos + 1 ) : fail();
+            case RANGES_EOL_LAST:
+            case RANGES_EOL_FIRST:
+            case U8_RANGES_EOL_LAST: return ( pos < end && ( ch( pos ) == 'a' || ch( pos ) == 'b' || ( uc( pos ) >= 9 && uc( pos ) <= 13 ) ) ) ? ok( pos + 1 ) : fail();
+            case RANGES_ODD_LF: return ( pos < end && ( ch( pos ) == 'a' || ch( pos ) == 'b' || ch( pos ) == '\n' ) ) ? ok( pos + 1 ) : fail();
+            case RANGES_ODD_CR: return ( pos < end && ( ch( pos ) == 'a' || ch( pos ) == 'b' || ch( pos ) == '\r' ) ) ? ok( pos + 1 ) : fail();
+            case STRING_A_LF: return ( pos + 2 <= end && ch( pos ) == 'a' && ch( pos + 1 ) == '\n' ) ? ok( pos + 2 ) : fail();
+            case STRING_CR_A: return ( pos + 2 <= end && ch( pos ) == '\r' && ch( pos + 1 ) == 'a' ) ? ok( pos + 2 ) : fail();
+            case ISTRING_A_LF: return ( pos + 2 <= end && ( ch( pos ) == 'a' || ch( pos ) == 'A' ) && ch( pos + 1 ) == '\n' ) ? ok( pos + 2 ) : fail();
+            case ISTRING_CR_A: return ( pos + 2 <= end && ch( pos ) == '\r' && ( ch( pos + 1 ) == 'a' || ch( pos + 1 ) == 'A' ) ) ? ok( pos + 2 ) : fail();
+            case U8_NOT_ONE_A: {  // any well-formed code point other than 'a'
+               const int n = utf8_len( data + pos, end - pos );
+               return ( n > 0 && !( n == 1 && ch( pos ) == 'a' ) ) ? ok( pos + n ) : fail();
+            }
+            case U8_NOT_RANGE_AB: {
+               const int n = utf8_len( data + pos, end - pos );
+               return ( n > 0 && !( n == 1 && ( ch( pos ) == 'a' || ch( pos ) == 'b' ) ) ) ? ok( pos + n ) : fail();
+            }
+            case UINT8_ANY: return any( pos );
+            case UINT8_ONE_LF_CR: return ( pos < end && ( uc( pos ) == 10 || uc( pos ) == 13 ) ) ? ok( pos + 1 ) : fail();
+            case UINT8_MASK_ONE: return ( pos < end && ( uc( pos ) & 0xF0 ) == 0x00 ) ? ok( pos + 1 ) : fail();
+            case UINT8_MASK_NOT_ONE: return ( pos < end && ( uc( pos ) & 0xF0 ) != 0x60 ) ? ok( pos + 1 ) : fail();
+            case UINT8_MASK_RANGE: return ( pos < end && ( uc( pos ) & 0x0F ) >= 0x09 && ( uc( pos ) & 0x0F ) <= 0x0D ) ? ok( pos + 1 ) : fail();
+            case UINT8_MASK_NOT_RANGE: return ( pos < end && !( ( uc( pos ) & 0xF0 ) >= 0x60 && ( uc( pos ) & 0xF0 ) <= 0x70 ) ) ? ok( pos + 1 ) : fail();
+            case UINT8_MASK_RANGE2: return ( pos < end && ( uc( pos ) & 0xF0 ) <= 0x05 ) ? ok( pos + 1 ) : fail();
+            case UINT8_MASK_RANGES2: return ( pos < end && ( ( uc( pos ) & 0xF0 ) <= 0x05 || ( uc( pos ) & 0xF0 ) == 0x60 ) ) ? ok( pos + 1 ) : fail();
+            case UINT8_MASK_NOT_ONE2: return ( pos < end && ( uc( pos ) & 0xF0 ) != 0x0A && ( uc( pos ) & 0xF0 ) != 0x0D ) ? ok( pos + 1 ) : fail();
+            case UINT8_MASK_RANGES: {
+               if( pos >= end ) return fail();
+               const unsigned v = uc( pos ) & 0x7F;
+               return ( ( v >= 0x61 && v <= 0x62 ) || ( v >= 0x09 && v <= 0x0D ) ) ? ok( pos + 1 ) : fail();
             }
             case BYTES2: return pos + 2 <= end ? ok( pos + 2 ) : fail();
             case EVERYTHING: return ok( end );
@@ -881,6 +921,16 @@ namespace R
             case STATE: {  // state< LogState, R >: new state for R; success( in, outer... ) iff R matched, whatever the apply mode
                const int id = st_next++;
                st_log.push_back( { 0, id, pos, am.state } );
+               Ctx in = am;
+               in.state = id;
+               Res r = ev( a, pos, end, in );
+               if( r.k == OK ) st_log.push_back( { 1, id, r.pos, am.state } );
+               st_log.push_back( { 2, id, -1, -1 } );
+               return r;
+            }
+            case STATE_D: {  // state< LogStateD, R >: the state is default constructed; success( in, outer... ) iff R matched, whatever the apply mode
+               const int id = st_next++;
+               st_log.push_back( { 0, id, -1, -2 } );
                Ctx in = am;
                in.state = id;
                Res r = ev( a, pos, end, in );
